@@ -69,6 +69,10 @@ def gen_argv(p, form=None):
         if rng is not None and type(v) is type(default) and v == default and repr(v) == repr(default) and rng.random() < 0.5:
             continue                    # the documented default, left out
         v = v if isinstance(v, str) else repr(v)
+        if rng is not None and rng.random() < 0.06 and not v.startswith("-") and v[:1].isdigit():
+            # the same number as a parameter table or a shell loop may hand it over: int() and float() accept
+            # surrounding white space (a CRLF line ending), a plus sign, leading zeros
+            v = rng.choice([v + "\r", " " + v, v + " ", "+" + v, v + "\n", "\t" + v] + (["0" + v] if "." not in v and "e" not in v else []))
         style = rng.choice(["short", "long", "long="]) if rng is not None else "short"
         if style == "long=":
             groups.append([long_ + "=" + v])
